@@ -61,7 +61,18 @@ def determinism(snap, n_seeds: int, workers: int) -> dict:
             cmp += len(digs)
             if len(set(digs)) > 1:
                 bad.append(f"{name} idx {idx}: {len(set(digs))} different event logs over {len(digs)} executions (workers x hash seeds x extension subsets)")
-        out[name] = {"scenarios": n_seeds, "executions_compared": cmp}
+        # the same scenarios again with a single worker process per configuration (another worker count)
+        n1 = min(8, n_seeds)
+        pool1 = Pool(snap["path"], cfgs, total_workers=len(cfgs))
+        res1 = pool1.run([_job(name, "run_scenario", 0, {"seed": 77, "idx": idx, "tier": "quick"}) for idx in range(n1)])
+        for idx in range(n1):
+            r16 = res[idx * len(cfgs) * 2]
+            r1 = res1[idx]
+            if r1 and r1.get("ok") and r16 and r16.get("ok"):
+                cmp += 1
+                if r1["res"]["log_digest"] != r16["res"]["log_digest"]:
+                    bad.append(f"{name} idx {idx}: event log differs between a 16-worker and a single-worker pool")
+        out[name] = {"scenarios": n_seeds, "executions_compared": cmp, "worker_counts": [workers, len(cfgs)]}
     pool = Pool(snap["path"], c11.CONFIGS, total_workers=workers)
     jobs = [_job("checks.c11", "run_case", c, {"seed": 77, "idx": i}) for i in range(n_seeds * 4) for c in range(len(c11.CONFIGS)) for _ in range(2)]
     res = pool.run(jobs)
